@@ -194,6 +194,11 @@ func (h *harness) tieWalk(env *pairEnv, spec *Spec, F []string, q *query, real o
 	} else if d.Op == "subscription" {
 		root = spec.Subscription
 	}
+	if rootsFixed && root != spec.Query {
+		if t := spec.find(root); t != nil && !subset(t.Req, fset(F)) {
+			root = "" // the operation has no scope: its root type is treated as absent
+		}
+	}
 	inlined := map[string]bool{}
 	rep := h.ask("(walk " + featSexp(F) + " full " + hx.A(root).String() + " " + docSels(d, d.Sels, inlined).String() + ")")
 	x, err := hx.ParseSexp(rep)
